@@ -57,6 +57,8 @@ impl SocketSend for ReqSocket {
                     })
                 }
             };
+            #[cfg(feature = "verif-hooks")]
+            crate::verif_hooks::yield_point("req.send.after_pop").await;
             if let Some(mut peer) = self.backend.peers.get_async(&next_peer_id).await {
                 self.backend.round_robin.push(next_peer_id.clone());
                 message.push_front(Bytes::new());
@@ -73,6 +75,8 @@ impl SocketRecv for ReqSocket {
     async fn recv(&mut self) -> ZmqResult<ZmqMessage> {
         match self.current_request.take() {
             Some(peer_id) => {
+                #[cfg(feature = "verif-hooks")]
+                crate::verif_hooks::yield_point("req.recv.after_take").await;
                 if let Some(mut peer) = self.backend.peers.get_async(&peer_id).await {
                     match peer.recv_queue.next().await {
                         Some(Ok(Message::Message(mut m))) => {
@@ -148,6 +152,8 @@ impl MultiPeerBackend for ReqSocketBackend {
                 },
             )
             .await;
+        #[cfg(feature = "verif-hooks")]
+        crate::verif_hooks::yield_point("req.peer_connected.after_upsert").await;
         self.round_robin.push(peer_id.clone());
     }
 
